@@ -71,6 +71,8 @@ def run_scenario(spec: dict) -> dict:
     S.set_sched(sched)
 
     faults = {(f["where"], f["k"]) for f in spec.get("faults", [])}
+    # a fault that persists: the callback fails at its k-th call and at every later one (a broken component stays broken)
+    persistent = {f["where"]: f["k"] for f in spec.get("faults", []) if f.get("persist")}
     counts: dict[str, int] = {}
 
     def cb(name, dur=0.0, body=None):
@@ -78,7 +80,7 @@ def run_scenario(spec: dict) -> dict:
         k = counts.get(name, 0) + 1
         counts[name] = k
         S.mark("cb_b", name)
-        if (name, k) in faults:
+        if (name, k) in faults or (name in persistent and k >= persistent[name]):
             S.mark("cb_raise", name)
             raise Injected(f"{name}#{k}")
         if body:
